@@ -50,6 +50,7 @@ class Pool():
         self._pending_per_worker = {}
         self._retry = retry
         self._retries = []
+        self._stale = {} # per worker: number of results still to come for inputs of a run which has been abandoned
 
         self._workers_lock = threading.Lock()
         self._next_worker_id = 0
@@ -416,6 +417,10 @@ class Pool():
                     if not flag:
                         if worker.id not in self._closed: # if a worker died while enqueueing, its death has already been handled but we will (possibly) end up here
                             handle_death(worker)
+                    elif self._stale.get(worker.id):
+                        # answers to inputs of a previous run that was abandoned (an exception has been raised from within it)
+                        logger.debug('Ignoring a result of an abandoned run from {}', worker)
+                        self._stale[worker.id] -= 1
                     elif worker.id in self._closed:
                         # a result which was already in the pipe when the worker's death has been handled while enqueueing,
                         # its input has been rescheduled (or dropped) together with the rest of the worker's pending inputs
@@ -430,6 +435,10 @@ class Pool():
                 logger.debug('All workers have finished and/or died but at least one input source is still available and/or pending results have not been received, Pool.run is finishing with ok=False (depleted: {}, pending: {}, len(retries): {})', self._depleted, self._pending, len(self._retries))
         finally:
             self._map_guard = False
+            # whatever is still pending now (the run is being abandoned) will be answered later, possibly during the next run
+            for wid, workload in self._pending_per_worker.items():
+                if workload and wid not in self._closed:
+                    self._stale[wid] = self._stale.get(wid, 0) + len(workload)
 
         if not ok:
             raise PoolError('Pool failed to process the whole input - all workers have died', partial_results=(ret if return_results else None))
